@@ -350,6 +350,7 @@ class SimSolver:
         self.plan = {}
         self.fired = {}
         self.vertex_stats = {"solves": 0, "alt_moved": 0, "fallback_cbc": 0}
+        self.observer = None  # callable(lp, solve index): sees every problem handed to the solver, before faults
 
     def install(self):
         m = mods()
@@ -380,6 +381,8 @@ class _SolverProxy:
         sim.count += 1
         if sim.log is not None:
             sim.log.add("SEAM", seam="solve", name=lp.name, index=idx)
+        if sim.observer is not None:
+            sim.observer(lp, idx)
         f = sim.plan.get(idx)
         if f:
             sim.fired[f.split(":")[0]] = sim.fired.get(f.split(":")[0], 0) + 1
